@@ -135,6 +135,10 @@ class Check:
             sp = rng.choice(["rel", "abs"])
         else:
             sp = rng.choice(["dot", "abs"])
+        if rng.random() < 0.12:
+            # the root is spelled through a symbolic link to one of its ancestors (/x/lnk/rt with lnk -> o1)
+            nodes.append({"path": "lk1", "type": "symlink", "target": OUTER})
+            cwd, sp = "", rng.choice(["vialink_rel", "vialink_abs"])
         follow = rng.random() < 0.8
         window = None
         if rng.random() < 0.2:
@@ -163,7 +167,7 @@ class Check:
             c = copy.deepcopy(case)
             c["cwd"], c["sp"] = "", "rel"
             yield c
-        if case["sp"] not in ("rel", "dot"):
+        if case["sp"] not in ("rel", "dot") and not case["sp"].startswith("vialink"):
             c = copy.deepcopy(case)
             c["sp"] = "rel" if case["cwd"] != ROOT else "dot"
             yield c
@@ -184,7 +188,11 @@ class Check:
             cwd_abs = os.path.join(sb.root, cwd) if cwd else sb.root
             root_abs = os.path.join(sb.root, ROOT)
             sp = case["sp"]
-            if sp == "abs":
+            if sp in ("vialink_rel", "vialink_abs"):
+                if "lk1" not in nm:
+                    raise CaseInvalid("link for the root spelling missing")
+                rs = ("lk1/rt" if sp == "vialink_rel" else os.path.join(sb.root, "lk1", "rt"))
+            elif sp == "abs":
                 rs = root_abs
             elif sp == "dot":
                 rs = "."
@@ -207,7 +215,7 @@ class Check:
             q = "select path from %s%s" % (rs, opts)
             if case.get("second_root"):
                 sib_abs = os.path.join(sb.root, SIB)
-                rs2 = sib_abs if sp == "abs" else os.path.relpath(sib_abs, cwd_abs)
+                rs2 = sib_abs if sp in ("abs", "vialink_abs") else os.path.relpath(sib_abs, cwd_abs)
                 q += ", %s %s %s" % (rs2, case.get("mode2", "bfs"), case.get("symword", "symlinks"))
                 roots_abs.append(sib_abs)
             q += " into list"
